@@ -143,7 +143,7 @@ PrimTypes == <<TBool, TNull, TOid, TReal>> \o IntTypes \o EnumTypes \o BitsTypes
 \* big payloads: only at depth 0, marked by gDepth = BigMark
 BigMark == 100
 BigLens == IF Rich THEN <<127, 128, 255, 256, 16383, 16384, 16385, 32768, 49152, 65535, 65536, 70000>>
-           ELSE <<128, 16383, 16384, 65536>>
+           ELSE <<128, 16384>>
 BigTypes ==
   <<TOcts(NoSz), TBits(NoSz, <<>>), TStr("IA5", NoSz, NoAl), TStr("UTF8", NoSz, NoAl), TStr("Numeric", NoSz, NoAl),
     TOf("SEQOF", TBool, NoSz), TOf("SEQOF", TIntR(B(0), B(255), FALSE), NoSz), TOcts(Sz(0, 65535, FALSE)),
@@ -152,7 +152,7 @@ BigTypes ==
 \* lengths between the fragmentation boundaries: long runs of sub-octet fields followed by
 \* an octet-aligned field / inside an open type (buffer and alignment book-keeping)
 MidLens == IF Rich THEN <<1022, 1363, 1500, 2047, 2048, 4095, 4096, 4097, 5461, 8191, 8192, 12000>>
-           ELSE <<1022, 1363, 4096, 5461>>
+           ELSE <<1363, 4097>>
 SubOctetCarriers ==
   <<TOf("SEQOF", TIntR(B(0), B(7), FALSE), NoSz), TOf("SEQOF", TBool, Sz(0, 20000, FALSE)), TStr("Numeric", NoSz, NoAl),
     TBits(NoSz, <<>>), TOf("SEQOF", TEnum(<<It("a", 0), It("b", 1), It("c", 2)>>, FALSE, <<>>), Sz(0, 20000, FALSE)),
